@@ -89,6 +89,10 @@ pub fn check(rep: &Report) {
                     let joined = if accepted.is_empty() { line.clone() } else { format!("{}\n{}", accepted.join("\n"), line) };
                     // recorded finding: the REPL types the previous result with the nil a single program would have short-circuited on
                     if qv::compile_with(&joined, Some(modules.clone()), &b).is_ok() && line.contains('~') && format!("{:?}", out).contains("| [])") { viol("previous-result-keeps-nil-in-its-type", format!("the REPL rejected {:?} ({:?}) although the previous result was not nil and the same lines compile as one program", line, out)); break; }
+                    // recorded finding (the C01/C02 type hole seen from the REPL): in one program a step `x = e` with e : T | [] leaves x narrowed
+                    // to T for the later steps, while the REPL keeps the sound type T | [] for later lines — so a line that uses such an
+                    // x at type T is rejected by the REPL only
+                    if qv::compile_with(&joined, Some(modules.clone()), &b).is_ok() && vars_before.iter().any(|(n, t)| (t.contains("| []") || t.starts_with("[] |") || t.contains("([] |")) && line.contains(n.as_str())) { viol("program-narrows-a-maybe-nil-binding-the-repl-does-not", format!("the REPL rejected {:?} ({:?}); it uses a variable whose session type still contains nil, which the single program had narrowed away", line, out)); break; }
                     if qv::compile_with(&joined, Some(modules.clone()), &b).is_ok() && !line.starts_with('\'') { viol("repl-rejects-what-the-program-accepts", format!("the REPL rejected {:?} ({:?}) but the same lines compile as one program", line, out)); break; }
                     continue;
                 }
